@@ -25,6 +25,7 @@ ATOL0 = 1e-13            # quara's Settings default
 # ------------------------------------------------------------------------------------------------ systems
 _SYS = {}
 _TIMES = {}
+_WORST = {}
 
 
 def _dense(b):
@@ -94,6 +95,13 @@ def g_K(rng, n, kind):
     kind: psd (full rank) | psd-low (rank < n) | indef (one direction negative) | zero"""
     if kind == "zero":
         return {"kind": kind, "A": [], "neg": 0.0}
+    if kind in ("psd-deg", "psdlow-deg", "indef-deg"):
+        # DEGENERATE spectra:  K = I + beta w w^dagger / |w|^2  has the eigenvalue 1 with multiplicity n - 1 and 1 + beta once
+        # (psd-deg: 1,..,1,2 ; psdlow-deg: 1,..,1,0 ; indef-deg: 1,..,1,-1), w a generic complex vector -> K is dense and complex
+        w = g_cint(rng, n, 1, 3)
+        if all(x[0][0] == 0 and x[0][1] == 0 for x in w):
+            w[0][0][0] = 1
+        return {"kind": kind, "A": [], "neg": 1.0 if kind == "indef-deg" else 0.0, "w": w, "beta": {"psd-deg": 1.0, "psdlow-deg": -1.0, "indef-deg": -2.0}[kind]}
     r = n if kind != "psd-low" else max(1, rng.randint(1, max(1, n - 1)))
     A = g_cint(rng, n, r, 3)
     neg = 0.0
@@ -105,6 +113,10 @@ def g_K(rng, n, kind):
 def K_of(desc, n, den=4.0):
     if desc["kind"] == "zero":
         return np.zeros((n, n), dtype=complex)
+    if desc["kind"] in ("psd-deg", "psdlow-deg", "indef-deg"):
+        w = m_of(desc["w"]).reshape(-1)
+        K = np.eye(n, dtype=complex) + desc["beta"] * np.outer(w, w.conj()) / float(np.vdot(w, w).real)
+        return (K + K.conj().T) / 2
     A = m_of(desc["A"], den)
     K = A @ A.conj().T
     if desc["kind"] == "psd-low" and desc["neg"] == 0.0:
@@ -220,6 +232,13 @@ def jpart_np(J):
 
 
 JSITE = ("EffectiveLindbladian.calc_j_mat", "identity-component-dropped")
+
+
+def jsite_for(ctx, S, hs, j_impl):
+    """(site, signature) for a wrong calc_j_mat: the recorded pre-fix defect only if the implementation coincides with the pre-fix routine"""
+    d = S["d"]
+    j_pre = cmatv(ctx.get_model().call("c18.extract", [d, 2], S["bq"] + rflat(hs)), d, d)
+    return JSITE if md(j_impl, j_pre) <= tolf(hs) else ("EffectiveLindbladian.calc_j_mat", "wrong-anticommutator-matrix")
 
 
 def mk_el(S, hs, **kw):
@@ -524,6 +543,48 @@ def chk_jump(ctx, case):
     if float(np.abs(Lobj.hs[0]).max()) > 1e-12 * (1 + float(np.abs(Lobj.hs).max())):
         if not jviol("generator from jump operators is not trace preserving"):
             ctx.violation("jump", "effective_lindbladian.generate_effective_lindbladian_from_jump_operators", "first-row-nonzero", "first row %.3g" % float(np.abs(Lobj.hs[0]).max()), case)
+    # ---- the (H, K) form (theorem C18_jump_hk_form): with a = tr c / d, g_b = <B_{b+1}, c> the generator of the jump operators IS the
+    # generator of H_eff = sum (i/2)(conj a c' - a c'^dagger), K = sum g g^dagger — in particular the identity component of a jump
+    # operator is not dynamically irrelevant, and calc_k_mat / calc_h_mat / calc_j_mat of the object return K, H_eff (traceless), J(K) = -1/2 sum c'^dagger c'
+    if n > 1:
+        a_s = [np.trace(c) / d for c in cs]
+        g_s = [np.array([np.vdot(S["B"][b + 1], c) for b in range(n - 1)]) for c in cs]
+        Khk = sum(np.outer(g, g.conj()) for g in g_s)
+        Hhk = np.zeros((d, d), dtype=complex)
+        for c, a in zip(cs, a_s):
+            ct = c - a * np.eye(d)
+            Hhk = Hhk + 0.5j * (np.conj(a) * ct - a * ct.conj().T)
+        dq = []
+        for a, g in zip(a_s, g_s):
+            dq += [float(a.real), float(a.imag)] + cflat(g.reshape(1, -1))
+        out = to_c(m.call("c18.jump_hk", [d, k], S["bq"] + dq))
+        Hm = np.array(out[:d * d]).reshape(d, d); Km = np.array(out[d * d:d * d + (n - 1) ** 2]).reshape(n - 1, n - 1)
+        cm = [np.array(out[d * d + (n - 1) ** 2 + q * d * d:d * d + (n - 1) ** 2 + (q + 1) * d * d]).reshape(d, d) for q in range(k)]
+        tolk = tolf(Khk, Hhk, *cs)
+        ctx.count("jump", key=(repr(case), "hk"), nontrivial=case["kind"] != "proj", label="hk-form/%s" % case["kind"])
+        if md(Hm, Hhk) > tolk or md(Km, Khk) > tolk or max(md(x, y) for x, y in zip(cm, cs)) > tolk:
+            ctx.violation("jump", "harness.jump_hk_np", "oracle-mismatch", "numpy (a, g, H_eff, K) and the model's decomposition / jumps_H / jumps_K differ", case)
+        try:
+            hs_hk = el.generate_hs_from_hk(S["c_sys"], Hhk, Khk)
+        except ValueError as e:
+            hs_hk = None
+            ctx.violation("jump", "effective_lindbladian.generate_hs_from_hk", "unexpected-raise", "H_eff / K of a jump set rejected: %s" % str(e)[:80], case)
+        if hs_hk is not None and md(hs_hk, Lobj.hs) > 10 * tolf(hs_hk, Lobj.hs):
+            if not jviol("generator from jump operators differs from the generator of its (H_eff, K) form by %.3g" % md(hs_hk, Lobj.hs)):
+                ctx.violation("jump", "effective_lindbladian.generate_effective_lindbladian_from_jump_operators", "not-the-hk-form",
+                              "generator from jump operators differs from generate_hs_from_hk(H_eff, K) by %.3g (K = sum g g^dagger, H_eff from the identity components)" % md(hs_hk, Lobj.hs), case)
+        if not old_defect:
+            # theorem C18_jump_generator_physical: the dissipator matrix of any jump set is PSD (exact decision on the extracted matrix)
+            Kx = Lobj.calc_k_mat()
+            if qcheck.antiherm_norm(Kx) > 1e-9 * (1 + float(np.abs(Khk).max())) or not qcheck.herm_psd(ctx, Kx, 1e-10 * (1 + float(np.abs(Khk).max()))):
+                ctx.violation("jump", "effective_lindbladian.generate_effective_lindbladian_from_jump_operators", "dissipator-not-psd", "dissipator matrix of a jump-operator generator is not positive semidefinite", case)
+            tole = 10 * tolf(Lobj.hs, Khk)
+            Ht = Hhk - np.trace(Hhk) / d * np.eye(d)
+            Jt = -0.5 * sum((c - a * np.eye(d)).conj().T @ (c - a * np.eye(d)) for c, a in zip(cs, a_s))      # J(K): traceless parts only
+            for nm, got, want in [("calc_k_mat", Lobj.calc_k_mat(), Khk), ("calc_h_mat", Lobj.calc_h_mat(), Ht), ("calc_j_mat", Lobj.calc_j_mat(), Jt)]:
+                if md(got, want) > tole:
+                    ss = jsite_for(ctx, S, Lobj.hs, got) if nm == "calc_j_mat" else None
+                    ctx.violation("jump", *(ss if ss == JSITE else ("EffectiveLindbladian." + nm, "jump-extraction")), "%s of a jump-operator generator differs from its (H_eff, K, J) form by %.3g" % (nm, md(got, want)), case)
     # ---- model of the six routines
     for name, variant, herm in [("j_cb", 2, 0), ("k_cb", 3, 0), ("d_cb", 0, 0), ("j_gb", 2, 1), ("k_gb", 3, 1), ("d_gb", 0, 1)]:
         mod = j_mod if name == "j_cb" else cmatv(m.call("c18.jump", [d, k, variant, herm], S["bq"] + cq), n, n)
@@ -619,6 +680,28 @@ def chk_verdict(ctx, case):
                 ctx.violation("verdict", "EffectiveLindbladian.__init__", "physicality-gate", "constructor %s but the exact verdict is physical=%s" % ("raised" if raised else "accepted", phys_hi), case)
 
 
+def chk_verdict_boundary(ctx, case):
+    """exactly-at-threshold, exactly representable: first-row entry = +-atol, +-atol(1 +- 2^-20), atol = 2^-e.  No band: both sides
+    decide  |x| <= atol  on the same dyadic numbers (np.allclose(rtol=0) is exact here)."""
+    S = get_sys(ctx, case["sys"]); d, n = S["d"], S["n"]
+    m = ctx.get_model()
+    atol = 2.0 ** (-case["e"])
+    fac = {"at": 1.0, "above": 1.0 + 2.0 ** -20, "below": 1.0 - 2.0 ** -20}[case["rel"]]
+    hs = np.zeros((n, n)); hs[0, case["col"] % n] = case["sign"] * atol * fac
+    L = mk_el(S, hs)
+    impl = [bool(L.is_tp(atol)), bool(L.is_cp(atol)), bool(L.is_physical(atol, atol))]
+    r = m.call("c18.verdicts", [d, 1], [atol] + S["bq"] + rflat(hs))
+    mod = [bool(int(r[0])), bool(int(r[3])), bool(int(r[4]))]
+    want_tp = case["rel"] != "above"
+    ctx.count("verdict", key=repr(case), nontrivial=True, label="boundary/%s" % case["rel"])
+    if mod[0] != want_tp:
+        ctx.violation("verdict", "model.is_tp_dec", "oracle-mismatch", "model is_tp at the threshold: %s, expected %s" % (mod[0], want_tp), case)
+    for k, nm in enumerate(["is_tp", "is_cp", "is_physical"]):
+        if impl[k] != mod[k]:
+            ctx.violation("verdict", "EffectiveLindbladian." + nm, "verdict-at-threshold", "%s(atol=2^-%d) = %s on a first-row entry %s the threshold (%s atol), exact model says %s" % (
+                nm, case["e"], impl[k], case["rel"], "%+.8g x" % (case["sign"] * fac), mod[k]), case)
+
+
 def sub_verdict(ctx):
     rng = ctx.rng
     cases = []
@@ -635,6 +718,11 @@ def sub_verdict(ctx):
             cases.append({"sys": sysn, "scale": rng.choice([1e-2, 1.0, 1.0, 10.0]), "H": g_herm(rng, d), "K": Kd, "row": row, "col": rng.randint(0, n - 1), "atol": atol, "ctor": (i % 3 == 0)})
     ctx.sample("verdict", cases[1])
     ctx.run_cases("verdict", chk_verdict, cases)
+    bcases = []
+    for sysn in ("1q", "qutrit", "2q"):
+        for q, rel in enumerate(["at", "above", "below"] * (1 if ctx.quick else 3)):
+            bcases.append({"sys": sysn, "e": rng.choice([13, 20, 30, 43]), "rel": rel, "sign": rng.choice([-1.0, 1.0]), "col": rng.randint(0, 15)})
+    ctx.run_cases("verdict", chk_verdict_boundary, bcases)
 
 
 # ================================================================================================ 5. projections
@@ -692,10 +780,15 @@ def chk_proj_ineq(ctx, case):
     # certificate (DESIGN 2.6) on the dissipator matrix: K' PSD, K' - K PSD, <K', K' - K> = 0  =>  K' is THE nearest PSD matrix
     c1 = qcheck.herm_psd(ctx, K2, eps); c2 = qcheck.herm_psd(ctx, K2 - K, eps)
     ip = abs(np.vdot(K2, K2 - K))
+    # failure class "degenerate-spectrum": K has a repeated non-zero eigenvalue (then an eigen-solver for general matrices need not return
+    # orthogonal eigenvectors and V diag(clipped) V^dagger is not the spectral projection)
+    ev = np.linalg.eigvalsh((K + K.conj().T) / 2)
+    degenerate = any(abs(ev[q + 1] - ev[q]) <= 1e-9 * (1 + sc) and abs(ev[q]) > 1e-6 * (1 + sc) for q in range(len(ev) - 1))
+    dsig = "degenerate-spectrum"
     if qcheck.antiherm_norm(K2) > eps or not c1:
-        ctx.violation("proj_ineq", site, "result-not-psd", "dissipator matrix of the projected generator is not PSD within %.3g" % eps, case)
+        ctx.violation("proj_ineq", site, dsig if degenerate else "result-not-psd", "dissipator matrix of the projected generator is not PSD within %.3g%s" % (eps, " (K has a repeated non-zero eigenvalue)" if degenerate else ""), case)
     elif not c2 or ip > 1e-8 * (1 + sc) ** 2:
-        ctx.violation("proj_ineq", site, "not-nearest-psd", "certificate rejected: PSD(K'-K)=%s, |<K',K'-K>|=%.3g" % (c2, ip), case)
+        ctx.violation("proj_ineq", site, dsig if degenerate else "not-nearest-psd", "certificate rejected: PSD(K'-K)=%s, |<K',K'-K>|=%.3g%s" % (c2, ip, " (K has a repeated non-zero eigenvalue)" if degenerate else ""), case)
     if md(P.calc_h_mat(), L.calc_h_mat()) > tolf(hs):
         ctx.violation("proj_ineq", site, "hamiltonian-changed", "the projection changed the Hamiltonian part by %.3g" % md(P.calc_h_mat(), L.calc_h_mat()), case)
     # model of the routine (theorem C18_proj_ineq_spec is about it): rebuild from calc_h_mat, calc_j_mat and the clipped K' the
@@ -721,13 +814,13 @@ def chk_proj_ineq(ctx, case):
     ctx.count("proj_ineq", key=(repr(case), "keep"), nontrivial=True, label="%s/unchanged-check" % kind)
     if err > 100 * tolf(hs):
         repaired = P.hs + from_cb(S, jpart_np(j_np) - jpart_np(j_impl)).real
-        what = "physical generator changed by the inequality projection" if kind in ("psd", "psd-low", "zero") else "inequality projection changes more than the dissipator matrix"
+        what = "physical generator changed by the inequality projection" if kind in ("psd", "psd-low", "zero", "psd-deg", "psdlow-deg") else "inequality projection changes more than the dissipator matrix"
         if md(repaired, expect) <= 100 * tolf(hs):
-            ctx.violation("proj_ineq", *JSITE, "%s: hs moves by %.3g (first row becomes %.3g); the projection rebuilds with calc_j_mat, which returns a wrong anti-commutator matrix (defect of fix c18-calc-j-mat-identity-component is back) — with the right J the result is exact" % (what, err, float(np.abs(P.hs[0]).max())), case)
+            ctx.violation("proj_ineq", *jsite_for(ctx, S, hs, j_impl), "%s: hs moves by %.3g (first row becomes %.3g); the projection rebuilds with calc_j_mat, which returns a wrong anti-commutator matrix — with the right J the result is exact" % (what, err, float(np.abs(P.hs[0]).max())), case)
         else:
-            ctx.violation("proj_ineq", site, "changes-physical" if kind != "indef" else "value", "%s by %.3g, not explained by calc_j_mat" % (what, err), case)
+            ctx.violation("proj_ineq", site, dsig if degenerate else ("changes-physical" if kind not in ("indef", "indef-deg") else "value"), "%s by %.3g, not explained by calc_j_mat" % (what, err), case)
     # with physicality required the projection of a physical generator must not raise
-    if kind == "psd" and case.get("strict"):
+    if kind in ("psd", "psd-deg") and case.get("strict"):
         Ls = mk_el(S, hs, is_physicality_required=True)
         try:
             Ls.calc_proj_ineq_constraint()
@@ -739,9 +832,9 @@ def chk_proj_ineq(ctx, case):
                 ctx.count("proj_ineq", key=(repr(case), "strict"), nontrivial=False, label="strict/in-band")
             # same root cause? the rebuilt generator has a non-zero first row because of calc_j_mat
             elif float(np.abs(P.hs[0]).max()) > 1e-9 and float(np.abs((P.hs + from_cb(S, jpart_np(j_np) - jpart_np(j_impl)).real)[0]).max()) < 1e-9:
-                ctx.violation("proj_ineq", *JSITE, "calc_proj_ineq_constraint of a physical generator raises ValueError(not physically correct): the rebuilt generator is not TP because of calc_j_mat", case)
+                ctx.violation("proj_ineq", *jsite_for(ctx, S, hs, j_impl), "calc_proj_ineq_constraint of a physical generator raises ValueError(not physically correct): the rebuilt generator is not TP because of calc_j_mat", case)
             else:
-                ctx.violation("proj_ineq", site, "unexpected-raise", "projection of a physical generator raised %s" % str(e)[:80], case)
+                ctx.violation("proj_ineq", site, dsig if degenerate else "unexpected-raise", "projection of a physical generator raised %s%s" % (str(e)[:80], " (K has a repeated non-zero eigenvalue)" if degenerate else ""), case)
 
 
 def sub_proj_ineq(ctx):
@@ -755,6 +848,10 @@ def sub_proj_ineq(ctx):
             if kind == "indef":
                 Kd["neg"] = [1e-3, 1e-1, 1.0, 4.0][i % 4]
             cases.append({"sys": sysn, "scale": rng.choice([1e-2, 1.0, 1.0, 10.0]), "H": g_herm(rng, d), "K": Kd, "strict": True})
+        # degenerate spectra (numpy.linalg.eig does not orthogonalise eigenvectors inside a degenerate eigenspace)
+        for i in range(max(3, cnt // 2) if sysn != "2q" else ctx.n(1, 4)):
+            kind = ["psd-deg", "indef-deg", "psdlow-deg"][i % 3]
+            cases.append({"sys": sysn, "scale": rng.choice([1e-2, 1.0, 1.0, 10.0]), "H": g_herm(rng, d), "K": g_K(rng, n - 1, kind), "strict": True})
     ctx.sample("proj_ineq", cases[0])
     ctx.run_cases("proj_ineq", chk_proj_ineq, cases)
 
@@ -796,20 +893,32 @@ def chk_to_gate(ctx, case):
         G2 = mk_el(S, hs * 0.5, is_physicality_required=True).to_gate()
         if md(G2.hs @ G2.hs, G.hs) > 1e-9 * (1 + float(np.abs(G.hs).max())):
             ctx.violation("to_gate", site, "semigroup", "exp(L/2)^2 != exp(L): %.3g" % md(G2.hs @ G2.hs, G.hs), case)
-    # comparison with the model's rational Taylor sum, small ||tL|| only; inputs rounded to a 2^-26 grid to keep the rationals short
-    if case["t"] <= 2.0:
+    # rational Taylor ENCLOSURE: inputs rounded to a 2^-26 grid (short rationals); x = ||L||_inf exactly; the model returns the exact
+    # partial sum T_N; every later partial sum (hence the limit exp(L)) lies within the explicit remainder bound
+    #     R_N = x^(N+1)/(N+1)! * (N+2)/(N+2-x)          (geometric tail, valid for x < N+2; theorem C18_taylor_tail_bound)
+    # entrywise.  N is the least N with R_N <= 1e-13, all of it in exact rational arithmetic.  The implementation (scipy expm in
+    # floating point) must lie in the enclosure widened by its own rounding allowance 2e-14 * n * (1 + x) * e^x.
+    # quick: ||L|| <= 2 ; thorough: additionally ||L|| = 10 on the 4 x 4 (1-qubit) systems.
+    if case["t"] <= 2.0 or (not ctx.quick and n == 4):
         hr = np.round(hs * 2.0 ** 26) / 2.0 ** 26
-        x = float(np.abs(hr).sum(axis=1).max())
-        N = 6
-        while x ** (N + 1) / math.factorial(N + 1) * math.exp(x) > 1e-13 and N < 40:
-            N += 1
+        xq = max(sum(abs(Fraction(float(v))) for v in row) for row in hr)
+        x = float(xq)
+        N = 1; term = xq * xq / 2                         # term = x^(N+1)/(N+1)!
+        while not (N + 2 > xq and term * (N + 2) / (N + 2 - xq) <= Fraction(1, 10 ** 13)):
+            N += 1; term = term * xq / (N + 1)
+            if N > 200:
+                break
+        R = float(term * (N + 2) / (N + 2 - xq))
         Gr = mk_el(S, hr).to_gate()
         mod = rmatv(m.call("c18.texp", [n, N], rflat(hr)), n, n)
-        ctx.count("to_gate", key=(repr(case), "taylor"), nontrivial=True, label="taylor/N=%d" % N)
-        if md(Gr.hs, mod) > 1e-10 * (1 + x):
-            ctx.violation("to_gate", site, "not-the-exponential", "to_gate differs from the Taylor sum (N=%d, remainder < 1e-13) by %.3g" % (N, md(Gr.hs, mod)), case)
+        allow = R + 2e-14 * n * (1 + x) * math.exp(x)
+        err = md(Gr.hs, mod)
+        _WORST["taylor"] = max(_WORST.get("taylor", 0.0), err / allow)
+        ctx.count("to_gate", key=(repr(case), "taylor"), nontrivial=True, label="taylor-enclosure/N=%d" % N)
+        if err > allow:
+            ctx.violation("to_gate", site, "not-the-exponential", "to_gate leaves the rational Taylor enclosure: |expm(L) - T_%d(L)| = %.3g > remainder bound %.3g + rounding allowance %.3g (||L||_inf = %.4g)" % (N, err, R, allow - R, x), case)
         if np.all(hr[0] == 0) and (np.any(mod[0, 1:] != 0) or mod[0, 0] != 1):
-            ctx.violation("to_gate", "model.texp", "oracle-mismatch", "Taylor sum of a first-row-zero matrix has first row != e0 (contradicts theorem C18_taylor_tp)", case)
+            ctx.violation("to_gate", "model.texp", "oracle-mismatch", "Taylor sum of a first-row-zero matrix has first row != e0 (contradicts theorem C18_to_gate_tp_partial)", case)
 
 
 def sub_to_gate(ctx):
@@ -834,6 +943,39 @@ def chk_tables(ctx, case):
     Tk = c_sys.basis_basisconjugate_T_sparse_from_1.tocsc(); Tj = c_sys.basishermitian_basis_T_from_1.tocsc()
     if Tk.shape != (n * n, (n - 1) ** 2) or Tj.shape != (n, (n - 1) ** 2):
         ctx.violation("tables", "CompositeSystem._calc_basis_basisconjugate_sparse", "shape", "table shapes %s %s" % (Tk.shape, Tj.shape), case); return
+    # ---- EVERY entry of the four tables of _calc_basis_basisconjugate_sparse against the defining formulas, evaluated with numpy
+    # directly on the basis elements: column (a, b) [itertools.product order] of
+    #   basis_basisconjugate_T_sparse          = vec(B_a (x) conj B_b)            (all a, b)       basisconjugate_basis_sparse = its conjugate, as rows
+    #   basis_basisconjugate_T_sparse_from_1   = vec(B_a (x) conj B_b)            (a, b >= 1)
+    #   basishermitian_basis_T_from_1          = vec(B_b^dagger B_a)              (a, b >= 1)
+    Bs = S["B"]
+    Tfull = c_sys.basis_basisconjugate_T_sparse.tocsc(); Tconj = c_sys.basisconjugate_basis_sparse.tocsr()
+    if Tfull.shape != (n * n, n * n) or Tconj.shape != (n * n, n * n):
+        ctx.violation("tables", "CompositeSystem._calc_basis_basisconjugate_sparse", "shape", "full table shapes %s %s" % (Tfull.shape, Tconj.shape), case); return
+    worst = {"k1": (0.0, None), "j1": (0.0, None), "full": (0.0, None), "conj": (0.0, None)}
+
+    def upd(key, err, where):
+        if err > worst[key][0]:
+            worst[key] = (err, where)
+    for a in range(n):
+        for b in range(n):
+            ref = np.kron(Bs[a], Bs[b].conj()).reshape(-1)
+            upd("full", md(np.asarray(Tfull[:, a * n + b].toarray()).reshape(-1), ref), (a, b))
+            upd("conj", md(np.asarray(Tconj[a * n + b, :].toarray()).reshape(-1), ref.conj()), (a, b))
+            if a >= 1 and b >= 1:
+                col = (a - 1) * (n - 1) + (b - 1)
+                upd("k1", md(np.asarray(Tk[:, col].toarray()).reshape(-1), ref), (a, b))
+                upd("j1", md(np.asarray(Tj[:, col].toarray()).reshape(-1), (Bs[b].conj().T @ Bs[a]).reshape(-1)), (a, b))
+    ctx.count("tables", key=(case["sys"], "entrywise"), nontrivial=True, label="%s/entrywise-all" % case["sys"])
+    for key, site, what in [("k1", "CompositeSystem.basis_basisconjugate_T_sparse_from_1", "B_a (x) conj B_b"), ("j1", "CompositeSystem.basishermitian_basis_T_from_1", "B_b^dagger B_a"),
+                            ("full", "CompositeSystem.basis_basisconjugate_T_sparse", "B_a (x) conj B_b"), ("conj", "CompositeSystem.basisconjugate_basis_sparse", "conj B_a (x) B_b")]:
+        if worst[key][0] > 1e-12:
+            ctx.violation("tables", site, "defining-formula", "table entry differs from %s by %.3g at (a, b) = %s" % (what, worst[key][0], worst[key][1]), dict(case, cols=case["cols"][:1]))
+    # ---- history: dropping the cached tables and rebuilding them gives the same tables
+    c_sys.delete_basis_basisconjugate_T_sparse_from_1(); c_sys.delete_basishermitian_basis_T_from_1()
+    Tk2 = c_sys.basis_basisconjugate_T_sparse_from_1.tocsc(); Tj2 = c_sys.basishermitian_basis_T_from_1.tocsc()
+    if (Tk2 != Tk).nnz != 0 or (Tj2 != Tj).nnz != 0:
+        ctx.violation("tables", "CompositeSystem._calc_basis_basisconjugate_sparse", "rebuild-differs", "tables rebuilt after delete_* differ from the first build", dict(case, cols=case["cols"][:1]))
     for col in case["cols"]:
         ck = np.asarray(Tk[:, col].toarray()).reshape(-1); cj = np.asarray(Tj[:, col].toarray() if hasattr(Tj[:, col], "toarray") else Tj[:, col]).reshape(-1)
         mk = np.array(to_c(m.call("c18.tab_col", [d, 0, col], S["bq"]))); mj = np.array(to_c(m.call("c18.tab_col", [d, 1, col], S["bq"])))
@@ -954,7 +1096,7 @@ def sub_typical(ctx):
 SUBS = [("gen", sub_gen), ("extract", sub_extract), ("jump", sub_jump), ("verdict", sub_verdict), ("proj_eq", sub_proj_eq),
         ("proj_ineq", sub_proj_ineq), ("to_gate", sub_to_gate), ("tables", sub_tables), ("typical", sub_typical)]
 FNS = {"gen": chk_gen, "extract": chk_extract, "jump": chk_jump, "verdict": chk_verdict, "proj_eq": chk_proj_eq, "proj_ineq": chk_proj_ineq,
-       "to_gate": chk_to_gate, "tables": chk_tables, "typical": chk_typical, "random_setting": chk_random_setting}
+       "verdict_boundary": chk_verdict_boundary, "to_gate": chk_to_gate, "tables": chk_tables, "typical": chk_typical, "random_setting": chk_random_setting}
 
 
 def run(ctx):
@@ -981,6 +1123,8 @@ def run(ctx):
                 _TIMES[key] = _TIMES.get(key, 0.0) + time.time() - t0
         ctx.run_cases = run_cases
     flow.standard_run(ctx, [(nm, timed(nm, fn)) for nm, fn in SUBS])
+    if _WORST:
+        ctx.note("worst ratio error / allowance: " + ", ".join("%s %.3f" % kv for kv in sorted(_WORST.items())))
     ctx.note("case time by sub-check/system: " + ", ".join("%s %.1fs" % (k, v) for k, v in sorted(_TIMES.items()) if v >= 0.5))
 
 
@@ -988,4 +1132,6 @@ def replay(ctx, doc):
     case = doc["case"]
     if doc["sub"] == "gen" and isinstance(case, dict) and "mode" not in case.get("case", case):
         flow.standard_replay(ctx, doc, {"gen": chk_gen_shape}); return
+    if doc["sub"] == "verdict" and isinstance(case, dict) and "rel" in case.get("case", case):
+        flow.standard_replay(ctx, doc, {"verdict": chk_verdict_boundary}); return
     flow.standard_replay(ctx, doc, FNS)
